@@ -100,6 +100,10 @@ pub struct GenCfg {
     pub modes: bool,
     pub complex: bool,
     pub metadata_selectors: bool,
+    /// multiplier for the weight of removal operations
+    pub rm_boost: u32,
+    /// also remove through DELETE queries
+    pub query_delete: bool,
 }
 
 impl Default for GenCfg {
@@ -121,6 +125,8 @@ impl Default for GenCfg {
             modes: true,
             complex: true,
             metadata_selectors: true,
+            rm_boost: 1,
+            query_delete: false,
         }
     }
 }
@@ -445,7 +451,7 @@ impl Gen {
             let nres = m.resources.len();
             let nann = m.anns.len();
             let nsets = m.sets.len();
-            let rm = if self.cfg.removals { 1 } else { 0 };
+            let rm = if self.cfg.removals { self.cfg.rm_boost } else { 0 };
             let weights = [
                 if nres < self.cfg.max_res { if nres == 0 { 60 } else { 6 } } else { 0 }, // add_resource
                 if nsets < self.cfg.max_sets { if nsets == 0 { 20 } else { 4 } } else { 0 }, // add_dataset
@@ -457,6 +463,7 @@ impl Gen {
                 if nres > 0 { 3 * rm } else { 0 },                                       // remove_resource
                 if nsets > 0 { 2 * rm } else { 0 },                                      // remove_dataset
                 if nann > 0 && self.cfg.protect && !m.text_order_unsettled() { 2 } else { 0 }, // protect_text
+                if self.cfg.query_delete && (nann > 0 || nres > 0) { 5 * rm } else { 0 },    // DELETE query
             ];
             let op = match rng.pick_weighted(&weights) {
                 0 => {
@@ -520,7 +527,20 @@ impl Gen {
                         Some(Op::RemoveDataset(self.r_set(rng, m, h)))
                     }
                 }
-                _ => Some(Op::ProtectText(*rng.pick(&[PMode::Checksum, PMode::Text, PMode::Both, PMode::Auto]))),
+                9 => Some(Op::ProtectText(*rng.pick(&[PMode::Checksum, PMode::Text, PMode::Both, PMode::Auto]))),
+                _ => {
+                    let plain = |s: &str| !s.is_empty() && s.chars().all(|c| c.is_ascii_alphanumeric());
+                    let mut cands: Vec<(char, String)> = Vec::new();
+                    cands.extend(m.anns.values().filter_map(|a| a.id.clone()).filter(|i| plain(i)).map(|i| ('A', i)));
+                    cands.extend(m.resources.values().map(|r| r.id.clone()).filter(|i| plain(i)).map(|i| ('R', i)));
+                    cands.extend(m.sets.values().map(|r| r.id.clone()).filter(|i| plain(i)).map(|i| ('S', i)));
+                    if cands.is_empty() {
+                        None
+                    } else {
+                        let (k, id) = rng.pick(&cands).clone();
+                        Some(Op::QueryDelete(k, id))
+                    }
+                }
             };
             if let Some(op) = op {
                 // only hand out operations whose outcome the documentation settles
